@@ -10,7 +10,7 @@
 #include <sys/wait.h>
 
 #define MAXC 32
-typedef struct { rfbClientPtr cl; int peer; vs_buf buf; int gone; } conn_t;
+typedef struct { rfbClientPtr cl; int peer; vs_buf buf; int gone; int dirty; } conn_t;
 static conn_t conns[MAXC]; static int nconns;
 static rfbScreenInfoPtr scr;
 
@@ -24,7 +24,7 @@ static void pump(void) {
   int peers[MAXC]; vs_buf bufs[MAXC]; int i;
   for (i = 0; i < nconns; i++) { peers[i] = conns[i].peer; bufs[i] = conns[i].buf; }
   vs_pump(scr, nconns, peers, bufs);
-  for (i = 0; i < nconns; i++) conns[i].buf = bufs[i];
+  for (i = 0; i < nconns; i++) { conns[i].buf = bufs[i]; if (conns[i].cl && !conns[i].gone && !conns[i].cl->onHold) conns[i].dirty = 0; }
 }
 static int state_of(conn_t *c) { return (c->gone || !c->cl || c->cl->sock < 0) ? -1 : (int)c->cl->state; }
 
@@ -45,14 +45,16 @@ static void run_case(char **lines, int nl) {
     if (!strcmp(op, "flags") && n == 4) {
       scr->alwaysShared = a ? TRUE : FALSE; scr->neverShared = b ? TRUE : FALSE; scr->dontDisconnect = c ? TRUE : FALSE;
       obs(NULL);
-    } else if ((!strcmp(op, "conn") || !strcmp(op, "connhold") || !strcmp(op, "connrefuse")) && n == 2 && nconns < MAXC) {
+    } else if ((!strcmp(op, "conn") || !strcmp(op, "connhold") || !strcmp(op, "connrefuse")) && n >= 2 && nconns < MAXC) {
+      int sv[2]; conn_t *k = &conns[nconns]; rfbClientPtr cl; char ver[16];
+      int minor = (n >= 3) ? b : 8;
       hook_answer = !strcmp(op, "connhold") ? RFB_CLIENT_ON_HOLD : (!strcmp(op, "connrefuse") ? RFB_CLIENT_REFUSE : RFB_CLIENT_ACCEPT);
-      int sv[2]; conn_t *k = &conns[nconns]; rfbClientPtr cl;
       memset(k, 0, sizeof *k);
       socketpair(AF_UNIX, SOCK_STREAM, 0, sv);
       fcntl(sv[1], F_SETFL, fcntl(sv[1], F_GETFL) | O_NONBLOCK);
       k->peer = sv[1]; nconns++;
-      vs_write(sv[1], "RFB 003.008\n", 12);
+      snprintf(ver, sizeof ver, "RFB 003.%03d\n", minor);
+      vs_write(sv[1], ver, 12);
       cl = rfbNewClient(scr, sv[0]);
       if (!cl) k->gone = 1;
       else {
@@ -64,18 +66,25 @@ static void run_case(char **lines, int nl) {
     } else if (!strcmp(op, "release") && n == 2) {
       if (a >= 0 && a < nconns && conns[a].cl && !conns[a].gone && conns[a].cl->onHold) rfbStartOnHoldClient(conns[a].cl);
       pump(); obs(NULL);
-    } else if (!strcmp(op, "adv") && n == 2) {
-      if (a >= 0 && a < nconns && state_of(&conns[a]) == RFB_SECURITY_TYPE) { unsigned char t = rfbSecTypeNone; vs_write(conns[a].peer, &t, 1); }
-      pump(); obs(NULL);
-    } else if (!strcmp(op, "init") && n == 3) {
-      if (a >= 0 && a < nconns && state_of(&conns[a]) == RFB_INITIALISATION) { unsigned char t = (unsigned char)b; vs_write(conns[a].peer, &t, 1); }
-      pump(); obs(NULL);
-    } else if (!strcmp(op, "drop") && n == 2) {
+    } else if ((!strcmp(op, "adv") || !strcmp(op, "advq")) && n == 2) {
+      /* quiet variants (..q) leave the event pending: the event loop is not run */
+      if (a >= 0 && a < nconns && conns[a].peer >= 0 && !conns[a].dirty && state_of(&conns[a]) == RFB_SECURITY_TYPE) {
+        unsigned char t = rfbSecTypeNone; vs_write(conns[a].peer, &t, 1); conns[a].dirty = 1; }
+      if (!strcmp(op, "adv")) pump();
+      obs(NULL);
+    } else if ((!strcmp(op, "init") || !strcmp(op, "initq")) && n == 3) {
+      if (a >= 0 && a < nconns && conns[a].peer >= 0 && !conns[a].dirty && state_of(&conns[a]) == RFB_INITIALISATION) {
+        unsigned char t = (unsigned char)b; vs_write(conns[a].peer, &t, 1); conns[a].dirty = 1; }
+      if (!strcmp(op, "init")) pump();
+      obs(NULL);
+    } else if ((!strcmp(op, "drop") || !strcmp(op, "dropq")) && n == 2) {
       if (a >= 0 && a < nconns && conns[a].peer >= 0) { close(conns[a].peer); conns[a].peer = -1; }
-      pump(); obs(NULL);
+      if (!strcmp(op, "drop")) pump();
+      obs(NULL);
     } else if (!strcmp(op, "probe")) {
       char marks[MAXC]; size_t before[MAXC]; int i;
       memset(marks, 0, sizeof marks);
+      pump();                              /* pending events first */
       rfbMarkRectAsModified(scr, 0, 0, 8, 8);
       for (i = 0; i < nconns; i++) {
         before[i] = conns[i].buf.n;
